@@ -3,6 +3,8 @@ import NmVerif.NN.PoolReduceLemmas
 import NmVerif.NN.ConvLemmas
 import NmVerif.NN.Conv2dLemmas
 import NmVerif.NN.ComposeLemmas
+import NmVerif.NN.LinearLemmas
+import NmVerif.NN.LinearTensordot
 /-
   C17 — neural-network routines equal their reference (PyTorch) definitions.
 
@@ -223,7 +225,7 @@ theorem softmax_eq_def {α : Type} (mx sub add div : α → α → α) (exp : α
         ∃ y, v.get i = some y := by
   obtain ⟨v, h1, h2, h3⟩ := softmax_core mx sub add div exp (den_lift x) hs axis hv
   refine ⟨v, h1, h2, fun i hi => ?_⟩
-  have hL := grp_single_eq_lineOf hi (normAxis_lt hv)
+  have hL := grp_single_eq_lineOf hi (NmVerif.Reduce.normAxis_lt hv)
   have he := h3 i hi
   rw [hL] at he
   refine ⟨he, ?_⟩
@@ -255,7 +257,7 @@ theorem softmin_eq_def {α : Type} (mx sub add div : α → α → α) (exp neg 
         ∃ y, v.get i = some y := by
   obtain ⟨v, h1, h2, h3⟩ := softmax_core mx sub add div exp (den_un neg (den_lift x)) hs axis hv
   refine ⟨v, h1, h2, fun i hi => ?_⟩
-  have hL := grp_single_eq_lineOf hi (normAxis_lt hv)
+  have hL := grp_single_eq_lineOf hi (NmVerif.Reduce.normAxis_lt hv)
   have he := h3 i hi
   rw [hL] at he
   refine ⟨he, ?_⟩
@@ -283,7 +285,7 @@ theorem softmax_eq_textbook {α : Type} (mx sub add div : α → α → α) (exp
   obtain ⟨v, h1, h2, h3⟩ := softmax_eq_def mx sub add div exp x axis hs hv
   refine ⟨v, h1, h2, fun i hi => ?_⟩
   obtain ⟨he, _⟩ := h3 i hi
-  have hL := grp_single_eq_lineOf (s := x.shape) hi (normAxis_lt hv)
+  have hL := grp_single_eq_lineOf (s := x.shape) hi (NmVerif.Reduce.normAxis_lt hv)
   have hne : lineOf x.shape (normAxis x.shape.length axis) i ≠ [] := by rw [← hL]; exact grp_ne_nil hi
   obtain ⟨M, hM⟩ := foldFirst_map_some mx x.get hne
   rw [he, hM, Option.bind_some]
@@ -294,6 +296,58 @@ theorem softmax_eq_textbook {α : Type} (mx sub add div : α → α → α) (exp
   congr 1
   funext S
   simp only [Function.comp, hexp, hdiv]
+
+/-! ## linear -/
+
+/-- **linear: `y[p, o] = Σ_i x[p, i] · w[o, i] (+ b[o])`** for an input `lead ++ [I]` of any rank, a weight `[O, I]` and an
+    optional bias `[O]`, any positive extents, abstract `add` / `mul`: `view::linear` = `tensordot(input, weight,
+    ((-1),(-1)))` (C16 model: transpose, reshape, broadcast multiply, `sum` over the last axis) `+ bias` (C06/C07
+    broadcast) exists, has the shape `lead ++ [O]`, and the element at `p ++ [o]` is the left fold of `add`, from the
+    first product, over exactly the products `x[p, i] · w[o, i]`, `i = 0 .. I−1` in this order, with `b[o]` added to the
+    finished sum. -/
+theorem linear_eq_def {α : Type} (add mul : α → α → α) (x w : Arr α) (bias : Option (Arr α)) (lead : Shape)
+    (I O : Nat) (hx : x.shape = lead ++ [I]) (hw : w.shape = [O, I]) (hb : ∀ b, bias = some b → b.shape = [O])
+    (hp : Pos (lead ++ [O])) :
+    ∃ v, linear add mul x w bias = some v ∧ v.shape = lead ++ [O] ∧ ∀ p o, InShape p lead → o < O →
+      v.get (p ++ [o]) = match bias with
+        | none => Reduce.foldFirst add none ((List.range I).map fun i => mul (x.get (p ++ [i])) (w.get [o, i]))
+        | some b => (Reduce.foldFirst add none ((List.range I).map fun i => mul (x.get (p ++ [i])) (w.get [o, i]))).map
+                      (fun S => add S (b.get [o])) := by
+  obtain ⟨r, hr1, hr2, hr3⟩ := tensordot_last_terms lead I O (hp O (by simp))
+  rw [← hx, ← hw] at hr1
+  cases bias with
+  | none =>
+    obtain ⟨v, h1, h2, h3⟩ := linear_rel_nobias add mul x w r hr1
+    refine ⟨v, h1, h2.trans hr2, fun p o hpi ho => ?_⟩
+    rw [h3, hr3 p o hpi ho, List.map_map]
+    rfl
+  | some b =>
+    obtain ⟨v, h1, h2, h3⟩ := linear_rel_bias add mul x w b r lead O hr1 hr2 hp (hb b rfl)
+    refine ⟨v, h1, h2, fun p o hpi ho => ?_⟩
+    rw [h3 p o hpi ho, hr3 p o hpi ho, List.map_map]
+    rfl
+
+/-- when the contracted extent is positive every element is defined -/
+theorem linear_defined {α : Type} (add mul : α → α → α) (x w : Arr α) (bias : Option (Arr α)) (lead : Shape)
+    (I O : Nat) (hx : x.shape = lead ++ [I]) (hw : w.shape = [O, I]) (hb : ∀ b, bias = some b → b.shape = [O])
+    (hp : Pos (lead ++ [O])) (hI : 0 < I) :
+    ∃ v, linear add mul x w bias = some v ∧ ∀ p o, InShape p lead → o < O → ∃ y, v.get (p ++ [o]) = some y := by
+  obtain ⟨v, h1, _, h3⟩ := linear_eq_def add mul x w bias lead I O hx hw hb hp
+  refine ⟨v, h1, fun p o hpi ho => ?_⟩
+  obtain ⟨S, hS⟩ := foldFirst_map_some add (fun i => mul (x.get (p ++ [i])) (w.get [o, i]))
+    (l := List.range I) (by intro h; have := congrArg List.length h; simp at this; omega)
+  rw [h3 p o hpi ho]
+  cases bias with
+  | none => exact ⟨S, hS⟩
+  | some b => exact ⟨add S (b.get [o]), by simp only [hS]; rfl⟩
+
+/-- non-vacuity: input (2,3), weight (2,3), bias (2): `y[1,0] = (x[1,0]·w[0,0] + x[1,1]·w[0,1] + x[1,2]·w[0,2]) + b[0]`
+    = `(4·1 + 5·2 + 6·3) + 10` -/
+example :
+    let x : Arr Int := ⟨[2, 3], fun d => match d with | [a, b] => (3 * a + b + 1 : Nat) | _ => 0⟩
+    let w : Arr Int := ⟨[2, 3], fun d => match d with | [a, b] => (3 * a + b + 1 : Nat) | _ => 0⟩
+    let b : Arr Int := ⟨[2], fun d => match d with | [a] => (10 * (a + 1) : Nat) | _ => 0⟩
+    (linear (· + ·) (· * ·) x w (some b)).map (fun v => (v.shape, v.get [1, 0])) = some ([2, 2], some 42) := by decide
 
 /-! ## convolution -/
 
